@@ -545,6 +545,7 @@ StructDirAlphabet ==   \* C16: the directory- and command-line-related part of S
     I0("nop"), By(<<Num(5)>>), Rep(2, << [k |-> "insert", len |-> 7, nm |-> "d"] >>), Rep(2, << Inc(3) >>), Inc(4) }
 StructBigAlphabet ==   \* C16: large repeat counts (the property's n <= 40), kept out of the exhaustive alphabet for size
   { Rep(40, << By(<< Bin("-", Dot, A) >>) >>), Rep(17, << W(<< Dot >>), I1("movr", A) >>), Rep(33, << Rep(2, << [k |-> "even"], By(<< Num(1) >>) >>) >>),
+    Rep(33, << Inc(1) >>), Rep(31, << Inc(2) >>),      \* one file included more than thirty times (a '.once' file contributes once, another one every time)
     Lab("a"), I0("nop"), By(<< Num(5) >>) }
 StructIncFiles == << [name |-> "i1", body |-> << [k |-> "once"], LabX("x"), W(<< Sym("x"), Dot >>) >>],
                      [name |-> "i2", body |-> << W(<< Dot >>), [k |-> "end"], W(<< Sym("undefined") >>) >>],
